@@ -461,6 +461,45 @@ func scenariosC11(tier string) []*mcrt.Scenario {
 			}
 		}
 	}
+	// twelve valid frames that each carry an error from the time conversion (QZSS
+	// MSMs; a GLONASS day 7), spread between ordinary ones: a count of 'bad' frames
+	// must not end the session
+	var errs []byte
+	for i := 0; i < 14; i++ {
+		switch {
+		case i%7 == 3:
+			errs = append(errs, ref.TypedFrame(1005, 19, nil)...)
+		case i%2 == 0:
+			errs = append(errs, ref.TypedFrame(1117, 8, func(k int) byte { return byte(i) })...)
+		default:
+			errs = append(errs, ref.TypedFrame(1087, 8, func(k int) byte {
+				if k == 3 {
+					return 0xE0
+				}
+				return byte(i)
+			})...)
+		}
+	}
+	errs = append(errs, ref.TypedFrame(1230, 8, nil)...)
+	{
+		wantE, _, _, faultE := expected(errs)
+		scs = append(scs, &mcrt.Scenario{Name: "rtcmfilter many-frames-with-time-errors default-schedule", DefaultOnly: true, Horizon: 4000000,
+			Body: body(errs, false, false, false, []int{0}),
+			Check: func(x *mcrt.X) *mcrt.Failure {
+				if faultE != "" {
+					return &mcrt.Failure{Kind: "sequential-framing-failed", Detail: faultE}
+				}
+				if f := basic(x); f != nil {
+					return f
+				}
+				obs := x.Data.(*obsT)
+				if !bytes.Equal(obs.atReturn, wantE) {
+					return &mcrt.Failure{Kind: "app=rtcmfilter returned-before-writer-finished", Detail: fmt.Sprintf("%d of %d output bytes written when HandleMessages returned (15 valid frames, 12 of them with a time error)", len(obs.atReturn), len(wantE))}
+				}
+				harness.Outcome("rtcmfilter complete-at-return")
+				return nil
+			}})
+	}
 	for _, n := range []int{4096, 4097, 70001} {
 		bs := bigStream(n)
 		wantB, _, _, faultB := expected(bs)
